@@ -110,14 +110,30 @@ theorem C06_always (P : Program) (F : Flags) (n : Nat) (tr : List Label) (c : Co
     | some k => exact absurd hrun (hK.waiter k hk).2.2.2
 
 /-- **C06 (waiters observe the outcome).** Every waiter that has returned from waiting
-carries the result of the one real execution of its key — success or failure — and that
-execution had finished (`execDone`) when the waiter woke. -/
+carries the outcome of the one real execution of its key — success or failure, the bare
+error that execution ended with, which the waiter wraps according to its own call exactly
+as the executing activation wraps it according to its call — and that execution had finished
+(`execDone`) when the waiter woke. -/
 theorem C06_waiters_observe_outcome (P : Program) (F : Flags) (n : Nat) (tr : List Label) (c : Config)
     (h : replay P F (init n) tr = some c) (w : Nat) (wx : Act) (k : Nat) (hw : c.act? w = some wx)
     (hk : wx.waitsFor = some k) (hp : wokenPhase wx.phase = true) :
     ∃ e ex, c.execs.lookup k = some e ∧ c.act? e = some ex ∧ ex.key = some k ∧
-      exFin ex.phase = true ∧ wx.res = ex.res :=
+      exFin ex.phase = true ∧ wx.out = ex.out ∧ wx.res = wrapFor wx.indirect ex.out ∧
+      ex.res = wrapFor ex.indirect ex.out :=
   Props.C01.C01_shared P F n tr c h w wx k hw hk hp
+
+/-- … in particular a waiter fails exactly when the one real execution failed, and a waiter
+called the same way as the executing activation returns the same error -/
+theorem C06_waiters_same_verdict (P : Program) (F : Flags) (n : Nat) (tr : List Label) (c : Config)
+    (h : replay P F (init n) tr = some c) (w : Nat) (wx : Act) (k : Nat) (hw : c.act? w = some wx)
+    (hk : wx.waitsFor = some k) (hp : wokenPhase wx.phase = true) :
+    ∃ e ex, c.execs.lookup k = some e ∧ c.act? e = some ex ∧
+      wx.res.isOk = ex.res.isOk ∧ (wx.indirect = ex.indirect → wx.res = ex.res) := by
+  obtain ⟨e, ex, h1, h2, _, _, _, h3, h4⟩ := C06_waiters_observe_outcome P F n tr c h w wx k hw hk hp
+  have hsh := (S2.Shape_sound P F n tr c h e ex h2).out
+  refine ⟨e, ex, h1, h2, ?_, ?_⟩
+  · rw [h3, h4, S2.wrapFor_isOk _ _ hsh, S2.wrapFor_isOk _ _ hsh]
+  · intro hi; rw [h3, h4, hi]
 
 /-- … and the waking itself is only accepted then (trace form: `wakeAfterDone`) -/
 theorem C06_wake_after_done (P : Program) (F : Flags) (n : Nat) (tr : List Label) (c : Config)
